@@ -125,45 +125,52 @@ func c02LeftAssoc(c *Ctx, ro *ParserRoles) {
 	pos := c.P.Pos(f.Pos())
 	loops := naturalLoops(f)
 	var loop *Loop
-	var np *ssa.Call
+	prec := f.Params[ro.ClimbPrecParam]
+	// the deciding branch: compares the current token's precedence (a call of the precedence function,
+	// or a loop variable fed only by such calls) with the precedence parameter
+	var dec *ssa.If
+	var np ssa.Value
+	isPrecValue := func(v ssa.Value) bool {
+		rs := plainOrigins.Roots(v)
+		if len(rs) == 0 {
+			return false
+		}
+		for _, rt := range rs {
+			if rt.Kind != "call" || rt.Fn != ro.Prec || len(rt.Path) != 0 {
+				return false
+			}
+		}
+		return true
+	}
 	for _, l := range loops {
 		for b := range l.Body {
-			for _, in := range b.Instrs {
-				if call, ok := in.(*ssa.Call); ok && calleeOf(call) == ro.Prec {
-					loop, np = l, call
-				}
+			if len(b.Instrs) == 0 {
+				continue
+			}
+			iff, ok := b.Instrs[len(b.Instrs)-1].(*ssa.If)
+			if !ok {
+				continue
+			}
+			bo, ok := iff.Cond.(*ssa.BinOp)
+			if !ok {
+				continue
+			}
+			switch {
+			case bo.Y == ssa.Value(prec) && isPrecValue(bo.X):
+				dec, np, loop = iff, bo.X, l
+			case bo.X == ssa.Value(prec) && isPrecValue(bo.Y):
+				dec, np, loop = iff, bo.Y, l
 			}
 		}
 	}
-	if loop == nil {
-		c.R.Undecided(rule, "climb-loop", pos, "no loop calling the precedence function")
-		return
-	}
-	prec := f.Params[ro.ClimbPrecParam]
-	// the deciding branch
-	var dec *ssa.If
-	for b := range loop.Body {
-		if len(b.Instrs) == 0 {
-			continue
-		}
-		iff, ok := b.Instrs[len(b.Instrs)-1].(*ssa.If)
-		if !ok {
-			continue
-		}
-		if bo, ok := iff.Cond.(*ssa.BinOp); ok {
-			if (bo.X == ssa.Value(np) && bo.Y == ssa.Value(prec)) || (bo.Y == ssa.Value(np) && bo.X == ssa.Value(prec)) {
-				dec = iff
-			}
-		}
-	}
-	if dec == nil {
-		c.R.Undecided(rule, "climb-test", pos, "no branch comparing the new precedence with the current one was recognised")
+	if loop == nil || dec == nil {
+		c.R.Undecided(rule, "climb-test", pos, "no loop branch comparing the new precedence with the current one was recognised")
 		return
 	}
 	bo := dec.Cond.(*ssa.BinOp)
 	// normalise to: cond true  <=>  np OP prec
 	op := bo.Op
-	if bo.Y == ssa.Value(np) {
+	if bo.Y == np {
 		switch op {
 		case token.LSS:
 			op = token.GTR
@@ -242,7 +249,7 @@ func c02LeftAssoc(c *Ctx, ro *ParserRoles) {
 			}
 			nrec++
 			recCall = call
-			ok2 := arg == ssa.Value(np)
+			ok2 := arg == np
 			why := ""
 			if !ok2 {
 				why = "the right operand must be parsed with the operator's own precedence (newPrecedence); got " + arg.String() + " = " + describeValue(arg)
@@ -644,7 +651,7 @@ func c02Layers(c *Ctx, ro *ParserRoles) {
 		name := c.SKName(k)
 		c.R.Check(rule, "primary-arm:"+name, c.P.Pos(ro.Primary.Pos()), pa == (k == c.SK("SK_OpenParen")) && ar == (k == c.SK("SK_OpenBracket")), fmt.Sprintf("parenthesised parser reachable=%v, array parser reachable=%v for %s; they must be reached exactly on `(` and `[`", pa, ar, name))
 	}
-	c.R.Floor(rule, 180)
+	c.R.Floor(rule, 150)
 }
 
 // ---------- start set ----------
@@ -1256,7 +1263,7 @@ func c02Lists(c *Ctx, ro *ParserRoles) {
 		}
 	}
 	// the separator: after an element, a comma is consumed or the list ends or a comma is expected (diagnostic)
-	c.R.Floor(rule, 12)
+	c.R.Floor(rule, 8)
 }
 
 // expectsKind: f(kind, ...) records a diagnostic whenever the current token differs from kind.
